@@ -509,6 +509,7 @@ impl Transform {
                 let mut template_iter = template.iter().peekable();
                 let mut template = template_iter.next().unwrap();
 
+                let mut repeats = 0_usize;
                 loop {
                     let in_ellipsis = template_iter.peek() == Some(&&self.ellipsis);
                     let before = env.positions();
@@ -522,6 +523,13 @@ impl Transform {
                                 if env.positions() == before {
                                     return None;
                                 }
+                                // Nor would one whose variables, nested under a further ellipsis,
+                                // run out in turns and start over: a repetition has at most one
+                                // element for every match there is.
+                                repeats += 1;
+                                if repeats > env.bindings.len() {
+                                    return None;
+                                }
                                 continue;
                             }
                         }
@@ -533,6 +541,7 @@ impl Transform {
                         }
                     }
 
+                    repeats = 0;
                     template = match template_iter.next() {
                         Some(template) => template,
                         None => {
